@@ -252,6 +252,13 @@ def handle (j : Json) : IO Unit := do
     match acc.fail with
     | none => emit case agree true branch
     | some (sig, note) => emit case agree false branch sig note
+  | "overlap" =>
+    -- catalogue readers overlap discovery results; after each round has been processed the unified listing must show
+    -- exactly what the endpoints last listed (catalogue-complete / catalogue-sound on the implementation's own answers)
+    let impl := jget j "impl"
+    let mm := jnat (jget impl "mismatches")
+    emit case (mm == 0) (mm == 0) s!"overlap.readers{jnat (jget j "readers")}" (if mm == 0 then "" else "unified-listing-stale-under-concurrent-readers")
+      (if mm == 0 then "" else s!"{mm} of {jnat (jget j "rounds")} rounds with {jnat (jget j "readers")} concurrent reader(s): {jstr (jget impl "first")}")
   | "conc" | "burst" =>
     -- rounds of operations issued concurrently (conc: one goroutine per endpoint) or back to back without
     -- waiting (burst); one snapshot per round at quiescence. The model must explain every snapshot by SOME
